@@ -173,6 +173,28 @@ def d6(ctx, rep):
             rep.bad('D6.owner', gc, pst[0], 'the conditioned pair is named by sorting the two nodes, but the parents are stored in the order given: when the smaller node '
                     'belongs to the second parent, get_conditional_uni / prepare_next_tree / get_tau_matrix read the wrong parent\'s h-function and '
                     'Edge.get_likelihood reads a cell the previous tree never wrote', construct='ownership of the left node')
+    # 1b. the reader get_conditional_uni takes its two parents in the order it is given them (the order the construction site
+    #     established): re-ordering them by node numbers undoes the ownership convention
+    cu = edge.methods.get('get_conditional_uni')
+    if cu is not None and len(cu.params) >= 3:
+        ps = set(cu.params[-2:])
+        rebinds = []
+        for s_ in walk_no_nested(cu.node):
+            if isinstance(s_, ast.Assign):
+                names = {x.id for t in s_.targets for x in ast.walk(t) if isinstance(x, ast.Name) and isinstance(x.ctx, ast.Store)}
+                if names & ps:
+                    rebinds.append(s_)
+        reorder = [s_ for s_ in rebinds if any(isinstance(c, ast.Call) and call_name(c) in ('sort_edge', 'sorted', 'reversed') for c in ast.walk(s_.value))
+                   or (isinstance(s_.value, ast.Tuple) and [getattr(x, 'id', None) for x in s_.value.elts] == list(reversed(cu.params[-2:]))
+                       and not isinstance(getattr(s_, '_parent', None), ast.If))]
+        if reorder:
+            rep.bad('D6.owner', cu, reorder[0], f'get_conditional_uni re-orders its parents (`{short(reorder[0], 60)}`): the first parent is no longer the one that owns the '
+                    'left node, so the h-function of the wrong parent is handed to the pair copula', construct='get_conditional_uni: parents in the given order')
+        elif rebinds:
+            rep.undecided('D6.owner', cu, rebinds[0], 'get_conditional_uni re-binds a parent parameter in a way that is not recognised',
+                          construct='get_conditional_uni: parents in the given order')
+        else:
+            rep.ok('D6.owner', cu, cu.node.name, 'the parents are used in the order given', construct='get_conditional_uni: parents in the given order')
     # 2. the reader in Edge.get_likelihood pairs L with parents[0] and R with parents[1]
     gl = edge.methods.get('get_likelihood')
     if gl is None:
@@ -356,15 +378,24 @@ def d2(ctx, rep):
                   'edge.U is not [left given right, right given left]', construct='layout of edge.U')
     gcu = prog.cls(TREE + 'Edge').methods['get_conditional_uni']
     n = 0
+    # the two node names come from the unpacking of _identify_eds_ing(first parent, second parent): (left, right, conditioning set)
+    node_of_parent = {}
+    for s_ in walk_no_nested(gcu.node):
+        if isinstance(s_, ast.Assign) and isinstance(s_.targets[0], (ast.Tuple, ast.List)) and isinstance(s_.value, ast.Call) and len(s_.value.args) == 2 \
+                and all(isinstance(x, ast.Name) for x in s_.value.args) and len(s_.targets[0].elts) >= 2 and all(isinstance(x, ast.Name) for x in s_.targets[0].elts[:2]):
+            node_of_parent = {s_.value.args[0].id: (s_.targets[0].elts[0].id, 'left'), s_.value.args[1].id: (s_.targets[0].elts[1].id, 'right')}
     for s in walk_no_nested(gcu.node):
         if isinstance(s, ast.Assign) and isinstance(s.value, ast.IfExp):
-            n += 1
             t, a, b = s.value.test, s.value.body, s.value.orelse
-            side = 'left' if s.targets[0].id.startswith('left') else 'right'
-            good = isinstance(t, ast.Compare) and isinstance(t.ops[0], ast.Eq) and isinstance(t.left, ast.Attribute) and t.left.attr == 'L' \
-                and isinstance(t.left.value, ast.Name) and t.left.value.id.startswith(side) and isinstance(t.comparators[0], ast.Name) and t.comparators[0].id == side \
+            par = t.left.value.id if isinstance(t, ast.Compare) and isinstance(t.left, ast.Attribute) and isinstance(t.left.value, ast.Name) else None
+            if par not in node_of_parent:
+                continue
+            n += 1
+            want_node, side = node_of_parent[par]
+            good = isinstance(t.ops[0], ast.Eq) and t.left.attr == 'L' and isinstance(t.comparators[0], ast.Name) and t.comparators[0].id == want_node \
                 and isinstance(a, ast.Subscript) and const_value(a.slice) == 0 and isinstance(b, ast.Subscript) and const_value(b.slice) == 1 \
-                and ast.dump(a.value) == ast.dump(b.value) and isinstance(a.value, ast.Attribute) and a.value.attr == 'U' and a.value.value.id == t.left.value.id
+                and ast.dump(a.value) == ast.dump(b.value) and isinstance(a.value, ast.Attribute) and a.value.attr == 'U' and isinstance(a.value.value, ast.Name) \
+                and a.value.value.id == par
             rep.check('D2.correct', gcu, s, good, f'{side}: U[0] when the parent\'s L is the wanted variable, else U[1]',
                       f'{side}: the wrong h-array of the parent is taken', construct=f'get_conditional_uni {side}')
     if n == 0:
@@ -572,24 +603,73 @@ def d5(ctx, rep):
         rep.undecided('D5.schema', fn, rets[-1], f'row count not derivable ({ln})', construct='sample rows')
     rep.check('D5.schema', fn, fn.node.name, RANDOM_STATE_DECORATOR in fn.decorators, '@random_state', 'not under @random_state', construct='sample decorator')
     sr = prog.method(VINE, '_sample_row')
+    # roles of the locals of the row sampler (found by what they are, not by their names)
+    from ..idioms import resolve as _resolve
+    uni_name = node_name = row_name = None
+    for s_ in walk_no_nested(sr.node):
+        if isinstance(s_, ast.Assign) and len(s_.targets) == 1 and isinstance(s_.targets[0], ast.Name) and isinstance(s_.value, ast.Call):
+            nm = prog.resolve(sr.module, s_.value.func) or ''
+            if nm in ('numpy.random.uniform', 'numpy.random.random', 'numpy.random.rand', 'numpy.random.random_sample') and uni_name is None:
+                uni_name = s_.targets[0].id
+            if call_name(s_.value) in ('pop', 'popleft') and isinstance(s_.value.func, ast.Attribute) and isinstance(getattr(s_, '_parent', None), (ast.While, ast.For)) \
+                    and node_name is None:
+                node_name = s_.targets[0].id
+    rets_sr = [n for n in walk_no_nested(sr.node) if isinstance(n, ast.Return) and isinstance(n.value, ast.Name)]
+    if rets_sr:
+        row_name = rets_sr[-1].value.id
+    if uni_name is None or node_name is None or row_name is None:
+        rep.undecided('D5.schema', sr, sr.node.name, 'the uniform draws / the node being visited / the returned row of _sample_row were not recognised', construct='row sampler roles')
+        return
     # values passed to the marginal quantile functions: clipped probabilities / uniform draws
     ppf_calls = [c for c in walk_no_nested(sr.node) if isinstance(c, ast.Call) and isinstance(c.func, ast.Subscript) and is_self_attr(c.func.value, sr.self_name, 'ppfs')]
     if not ppf_calls:
         rep.undecided('D5.schema', sr, sr.node.name, 'no call of self.ppfs[...] found in _sample_row: how a drawn probability becomes a value is not derived', construct='marginal quantile calls')
-    cur_ok = all(isinstance(c.func.slice, ast.Name) and c.func.slice.id == 'current' for c in ppf_calls)
-    rep.check('D5.schema', sr, ppf_calls[0] if ppf_calls else sr.node.name, cur_ok, 'the quantile function of the node being sampled is used',
-              'a value is mapped through the quantile function of another variable', construct='ppf index')
+    cur_ok = all(isinstance(c.func.slice, ast.Name) and c.func.slice.id == node_name for c in ppf_calls)
+    if ppf_calls:
+        rep.check('D5.schema', sr, ppf_calls[0], cur_ok, 'the quantile function of the node being sampled is used',
+                  'a value is mapped through the quantile function of another variable', construct='ppf index')
+    # every use of the vector of uniform draws is indexed by a node (the node being visited, an already visited node), never by the
+    # position in the visiting order: the draw a node consumes and the value other nodes condition on must be the same entry
+    steps = {s_.target.id for s_ in walk_no_nested(sr.node) if isinstance(s_, ast.AugAssign) and isinstance(s_.target, ast.Name)}
+    steps |= {s_.target.id for s_ in walk_no_nested(sr.node) if isinstance(s_, ast.For) and isinstance(s_.target, ast.Name) and isinstance(s_.iter, ast.Call)
+              and call_name(s_.iter) == 'range'}
+    uses = [x for x in walk_no_nested(sr.node) if isinstance(x, ast.Subscript) and isinstance(x.value, ast.Name) and x.value.id == uni_name and isinstance(x.ctx, ast.Load)]
+    by_step = [x for x in uses if isinstance(x.slice, ast.Name) and x.slice.id in steps]
+    by_node = [x for x in uses if x not in by_step]
+    if by_step and by_node:
+        rep.bad('D5.schema', sr, by_step[0], f'`{short(by_step[0])}` indexes the uniform draws by the position in the visiting order while `{short(by_node[0])}` indexes them by node: '
+                'a node can be conditioned on a draw that was not the one it consumed (the dependence of the sampled row is lost)', construct='index of the uniform draws')
+    elif uses:
+        rep.ok('D5.schema', sr, uses[0], 'the uniform draws are indexed consistently', construct='index of the uniform draws')
     clip = [s for s in walk_no_nested(sr.node) if isinstance(s, ast.Assign) and isinstance(s.targets[0], ast.Name) and isinstance(s.value, ast.Call)
             and call_name(s.value) == 'min' and any(isinstance(x, ast.Call) and call_name(x) == 'max' for x in ast.walk(s.value))]
-    ok = False
-    if clip:
-        hi = [a for a in clip[0].value.args if isinstance(const_value(a), float)]
-        ok = bool(hi) and 0 < const_value(hi[0]) < 1 and any(prog.resolve(sr.module, x) == 'copulas.utils.EPSILON' for x in ast.walk(clip[0].value))
-    rep.check('D5.schema', sr, clip[0] if clip else sr.node.name, ok, 'conditional draws are clipped into (0, 1) before the quantile transform',
-              'conditional draws are not clipped strictly inside (0, 1) before the marginal quantile (infinite samples)', construct='clip of the conditional draw')
+    clip += [s for s in walk_no_nested(sr.node) if isinstance(s, ast.Assign) and isinstance(s.targets[0], ast.Name) and isinstance(s.value, ast.Call)
+             and call_name(s.value) == 'clip' and len(s.value.args) == 3]
+    if not clip:
+        # positive evidence: a marginal quantile receives a name whose every definition is a percent_point(...) result, unclipped
+        direct = None
+        for c_ in ppf_calls:
+            for x in ast.walk(c_.args[0]) if c_.args else []:
+                if isinstance(x, ast.Name) and x.id != node_name:
+                    defs = [a_.value for a_ in walk_no_nested(sr.node) if isinstance(a_, ast.Assign) and any(isinstance(t, ast.Name) and t.id == x.id for t in a_.targets)]
+                    if defs and all(any(isinstance(y, ast.Call) and call_name(y) == 'percent_point' for y in ast.walk(d_)) for d_ in defs):
+                        direct = c_
+        if direct is not None:
+            rep.bad('D5.schema', sr, direct, 'conditional draws are not clipped strictly inside (0, 1) before the marginal quantile (infinite samples)', construct='clip of the conditional draw')
+        else:
+            rep.undecided('D5.schema', sr, sr.node.name, 'no clipping of the conditional draw (min(max(..)) / np.clip) recognised before the quantile transform',
+                          construct='clip of the conditional draw')
+    else:
+        from ..constfold import fold
+        nums = [fold(prog, sr.module, a_) for c_ in [clip[0].value] + [x for x in ast.walk(clip[0].value) if isinstance(x, ast.Call)] for a_ in c_.args]
+        nums = sorted({v for v in nums if v is not None})
+        ok = len(nums) >= 2 and 0 < nums[0] and nums[-1] < 1
+        rep.check('D5.schema', sr, clip[0], ok, 'conditional draws are clipped into (0, 1) before the quantile transform',
+                  'conditional draws are not clipped strictly inside (0, 1) before the marginal quantile (infinite samples)', construct='clip of the conditional draw')
+    cond_names = {s.targets[0].id for s in clip}
     # rank of the stored element
     stores = [s for s in walk_no_nested(sr.node) if isinstance(s, ast.Assign) and isinstance(s.targets[0], ast.Subscript) and isinstance(s.targets[0].value, ast.Name)
-              and s.targets[0].value.id == 'sampled']
+              and s.targets[0].value.id == row_name]
 
     class RK(RankKind):
         def call(self2, node, fr2):
@@ -599,12 +679,12 @@ def d5(ctx, rep):
             return RankKind.call(self2, node, fr2)
 
         def subscript(self2, node, base, fr2):
-            if isinstance(node.value, ast.Name) and node.value.id == 'unis':
+            if isinstance(node.value, ast.Name) and node.value.id == uni_name:
                 return 0
             return RankKind.subscript(self2, node, base, fr2)
 
         def name(self2, node, fr2):
-            if node.id == 'tmp':
+            if node.id in cond_names:
                 return 0
             return RankKind.name(self2, node, fr2)
     rk = RK(ctx)
@@ -626,8 +706,17 @@ def d5(ctx, rep):
             rep.bad('D5.schema', sr, s, f'a rank-{r0} array is stored into one element of the row: raises under NumPy >= 2 for every sample', construct='rank of the sampled element')
         else:
             rep.undecided('D5.schema', sr, s, f'rank of the stored value not derivable ({r0})', construct='rank of the sampled element')
-    # the copula used in the row traversal conditions on the first visited node with percent_point(new, given)
+    # the copula used in the row traversal conditions on an already visited node: percent_point(new probability, value of the uniform draws at a node)
     pp = [c for c in walk_no_nested(sr.node) if isinstance(c, ast.Call) and call_name(c) == 'percent_point']
     for c in pp:
-        ok = len(c.args) == 2 and isinstance(c.args[1], ast.Name) and c.args[1].id == 'U'
-        rep.check('D5.schema', sr, c, ok, 'percent_point(probability, conditioning value)', 'percent_point arguments are not (probability, conditioning value)')
+        second = _resolve(sr.node, c.args[1]) if len(c.args) == 2 else None
+        given = second is not None and any(isinstance(x, ast.Subscript) and isinstance(x.value, ast.Name) and x.value.id == uni_name
+                                           and not (isinstance(x.slice, ast.Name) and x.slice.id == node_name) for x in ast.walk(second))
+        first_is_given = len(c.args) == 2 and any(isinstance(x, ast.Subscript) and isinstance(x.value, ast.Name) and x.value.id == uni_name
+                                                   and not (isinstance(x.slice, ast.Name) and x.slice.id in (node_name,) + tuple(steps)) for x in ast.walk(_resolve(sr.node, c.args[0])))
+        if given and not first_is_given:
+            rep.ok('D5.schema', sr, c, 'percent_point(probability, conditioning value)', construct=f'percent_point arguments: {short(c, 40)}')
+        elif first_is_given and not given:
+            rep.bad('D5.schema', sr, c, 'percent_point arguments are not (probability, conditioning value)', construct=f'percent_point arguments: {short(c, 40)}')
+        else:
+            rep.undecided('D5.schema', sr, c, 'which argument of percent_point is the conditioning value was not derived', construct=f'percent_point arguments: {short(c, 40)}')
